@@ -122,6 +122,8 @@ def step (st : St) : List String → St × String
           if coins.isEmpty then (st, "err:notEligible")
           else apply st (Dao.transfer st.M order st.s a b coins)
       | _, _, _ => (st, "bad-op")
+  | ["crowd", _] => (st, "skip")
+  | ["export"] => (st, "skip")
   | ["dump", n] => match n.toNat? with
       | some n => (st, dump st n)
       | none => (st, "bad-op")
